@@ -743,13 +743,87 @@ func sphMigrateObservation(w *bufio.Writer) {
 	fmt.Fprintf(w, "SAMPLE\tobservation: 3 path probes outstanding at MigratedPath, %d still tracked afterwards\n", left)
 }
 
+// sphExhaustive (thorough tier): every history of exactly `depth` ops over a 9-symbol alphabet in ONE packet number
+// space (Initial) using at most 4 packet numbers: send ack-eliciting, send non-ack-eliciting, ACK {i} for i in 0..3,
+// ACK [0..largest sent], loss-detection timeout (at the alarm if it lies ahead), QueueProbePacket. All prefixes are
+// covered because monitors and observables are evaluated after every op. Monitors run on every history; a CASE is
+// emitted for every history when emitEvery == 1, else for every emitEvery-th.
+func sphExhaustive(w *bufio.Writer, client bool, depth, emitEvery int) (histories, emitted int) {
+	const nsym = 9
+	seq := make([]int, depth)
+	var idx int
+	var rec func(pos, sends int)
+	runOne := func() {
+		r := newSphRun(w, client, true, 0, 0, 0)
+		now := int64(1_000_000_000)
+		largest := int64(-1)
+		id := int64(0)
+		for _, sym := range seq {
+			now += 30_000_000
+			switch {
+			case sym == 0:
+				pn := r.exec(&sphOp{kind: "send", l: lvInitial, now: now, la: -1, fs: []int64{id}, size: 1200})
+				id++
+				largest = pn
+			case sym == 1:
+				pn := r.exec(&sphOp{kind: "send", l: lvInitial, now: now, la: 0, size: 45})
+				largest = pn
+			case sym >= 2 && sym <= 5:
+				pn := int64(sym - 2)
+				r.exec(&sphOp{kind: "ack", l: lvInitial, now: now, delay: 0, ranges: [][2]int64{{pn, pn}}})
+			case sym == 6:
+				r.exec(&sphOp{kind: "ack", l: lvInitial, now: now, delay: 0, ranges: [][2]int64{{0, max(largest, 0)}}})
+			case sym == 7:
+				if a := r.v.AlarmTime(); a > now {
+					now = a
+				}
+				r.exec(&sphOp{kind: "timeout", now: now})
+			default:
+				r.exec(&sphOp{kind: "queueprobe", l: lvInitial})
+			}
+		}
+		histories++
+		if idx%emitEvery == 0 {
+			fmt.Fprintf(w, "CASE 1 %s\n", r.caseTerm())
+			emitted++
+		}
+		idx++
+	}
+	rec = func(pos, sends int) {
+		if pos == depth {
+			runOne()
+			return
+		}
+		for sym := 0; sym < nsym; sym++ {
+			if sym <= 1 && sends == 4 {
+				continue
+			}
+			seq[pos] = sym
+			ns := sends
+			if sym <= 1 {
+				ns++
+			}
+			rec(pos+1, ns)
+		}
+	}
+	rec(0, 0)
+	return
+}
+
 func runSentPH(w *bufio.Writer, seed uint64, n int, _ []string) {
 	root := u.NewRng(seed)
 	sphWitness(w)
 	sphMigrateObservation(w)
 	dist := map[string]int{}
-	thorough := os.Getenv("VERIF_TIER") == "thorough"
-	_ = thorough
+	if os.Getenv("VERIF_TIER") == "thorough" {
+		// exhaustive small universe: all 4-op histories through the model (both perspectives), all 6-op histories
+		// through the monitors with a sample through the model
+		for _, client := range []bool{false, true} {
+			h4, e4 := sphExhaustive(w, client, 4, 1)
+			h6, e6 := sphExhaustive(w, client, 6, 97)
+			fmt.Fprintf(w, "DIST\texhaustive-4op-histories\t%d\nDIST\texhaustive-4op-cases\t%d\nDIST\texhaustive-6op-histories\t%d\nDIST\texhaustive-6op-cases\t%d\n", h4, e4, h6, e6)
+		}
+	}
 	for c := 0; c < n; c++ {
 		r := root.Fork()
 		client := r.Bool()
